@@ -174,6 +174,8 @@ where
         };
         todo_off = state_i + 1;
         todo -= 1;
+        #[cfg(grmtools_verif)]
+        let verif_reprocessing = !edges[state_i].is_empty();
 
         {
             closed_states[state_i] = Some(core_states[state_i].close(grm, &firsts));
@@ -250,6 +252,8 @@ where
                         if closed_states[usize::from(k)].is_some() {
                             closed_states[usize::from(k)] = None;
                             todo += 1;
+                            #[cfg(grmtools_verif)]
+                            crate::verif_hooks::note_reprocess();
                         }
                     }
                 }
@@ -275,6 +279,8 @@ where
                     closed_states.push(None);
                     core_states.push(nstate);
                     todo += 1;
+                    #[cfg(grmtools_verif)]
+                    crate::verif_hooks::note_new_state(verif_reprocessing);
                 }
             }
         }
@@ -286,6 +292,8 @@ where
     // 100 runs, 24 or 25 states will be created instead of 23). We thus need to weed out
     // unreachable states and update edges accordingly.
     debug_assert_eq!(core_states.len(), closed_states.len());
+    #[cfg(grmtools_verif)]
+    let verif_states_before_gc = core_states.len();
     let (gc_states, gc_edges) = gc(
         core_states
             .drain(..)
@@ -294,6 +302,9 @@ where
         start_state,
         edges,
     );
+
+    #[cfg(grmtools_verif)]
+    crate::verif_hooks::note_gc(verif_states_before_gc, gc_states.len());
 
     // Check that StorageT is big enough to hold RIdx/PIdx/SIdx/TIdx values; after these
     // checks we can guarantee that things like RIdx(ast.rules.len().as_()) are safe.
